@@ -106,6 +106,19 @@ impl IndexRead {
         if entries.is_empty() {
             // It's legal, it's just weird - and it can be produced by some old Conserve versions.
         }
+        // A hunk can decompress and parse and still hold values that no writer produces
+        // and that later code would trip over: treat it like any other corrupt hunk.
+        if let Some((entry, problem)) = entries
+            .iter()
+            .find_map(|entry| invalid_entry(entry).map(|problem| (entry, problem)))
+        {
+            return Err(Error::InvalidMetadata {
+                details: format!(
+                    "Index hunk {path:?} has an invalid entry for {:?}: {problem}",
+                    entry.apath
+                ),
+            });
+        }
         Ok(Some(entries))
     }
 
@@ -160,6 +173,26 @@ impl IndexRead {
             after: None,
         })
     }
+}
+
+/// If an entry read from an index holds values that can't be used, say what is wrong.
+fn invalid_entry(entry: &IndexEntry) -> Option<&'static str> {
+    if entry.kind == Kind::Unknown {
+        return Some("unknown kind");
+    }
+    let mtime_ok = i32::try_from(entry.mtime_nanos)
+        .is_ok_and(|nanos| jiff::Timestamp::new(entry.mtime, nanos).is_ok());
+    if !mtime_ok {
+        return Some("mtime out of range");
+    }
+    if entry
+        .addrs
+        .iter()
+        .any(|addr| addr.start.checked_add(addr.len).is_none())
+    {
+        return Some("address range overflows");
+    }
+    None
 }
 
 /// Read hunks of entries from a stored index, in apath order.
